@@ -15,7 +15,7 @@ full names `task.alg.sv.value`           `Name α = List α` (4 components); the
 `_build_tree` + `_sub_task/_sub_analysis `buildFlat` (fold over the flattened loop nest,
    /_sub_regression`, `Node.add`            `visitValue`, `Tbl.upd … addU`)
 `_feedback`, `feedbacks`                 `feedbackPass` (`Except`: the `KeyError` is explicit)
-`_parents(roots, known)`                 `dfs` over cross-algorithm children + `parentsOf`
+`_parents(roots, known)`                 `dfs` over `crossKids` (`Graph.known`) + `Graph.parT`
 `_ancestry`                              `ancLoop` / `ancestryOf` (`none` = the Python `while`
                                            loop does not terminate)
 `Node.trim`, `_trim_trees(1|2|3)`        `dfs` over feedback+children, `children`, `treeTags`,
@@ -23,7 +23,11 @@ full names `task.alg.sv.value`           `Name α = List α` (4 components); the
 `at / svt / tt / vt`                     levels 2 / 3 / 1 / value level
 
 Sets are duplicate-free lists (membership is what the theorems speak about), dicts are
-association lists.  Scheduler attributes of the nodes (`do/doing/todo/status/level`) are not
+association lists.  The loop nests of `_build_tree` and `_feedback` are folds over their
+flattened iteration space; `_parents` and `Node.trim` are one depth-first walk with a visited
+set plus a point-wise set comprehension (the Python may meet a node twice; the second visit
+only repeats idempotent set insertions).  Constants of `pl/dag.py` (tree build order, trim
+lengths) come from `Generated/DagConsts.lean`, rewritten from the source on every run.  Scheduler attributes of the nodes (`do/doing/todo/status/level`) are not
 modelled here.
 -/
 import DawgieVerif.Generated.DagConsts
